@@ -29,6 +29,7 @@ type TreeCfg struct {
 	LowGasPct int  // percentage of calls with a small fixed gas
 	Transient bool
 	ReturnBig bool
+	LogPct    int // extra probability of a LOG action
 }
 
 type treeGen struct {
@@ -227,6 +228,10 @@ func (s *treeScript) action(allowCreate bool) {
 	r := uniform(t, 0, 19, "act")
 	if g.cfg.Journal && chance(t, 35, "jact") {
 		journalSnippet(t, s.a)
+		return
+	}
+	if g.cfg.LogPct > 0 && chance(t, g.cfg.LogPct, "logact") {
+		s.log()
 		return
 	}
 	switch {
